@@ -20,6 +20,22 @@ CHECKS = {
    technique="Coq proof over regenerated tables + correspondence of lookup model + exhaustive monitor", ref="6 C18"),
 }
 
+MON_NOTE = "Trusted: Go harness and its reference implementations (replay by the engine's own legality test on fresh copies), watchdog clocks; runtime behaviour (scheduling, timing) is observed, not modelled; Coq model and theorems for this property are being integrated (see DESIGN.md), the level claimed is what decides the property in this commit."
+for _pid, _cat, _txt, _tech in [
+ ("C05","exploration","Runtime monitor: real searches under random limits, feature switches, stop moments and shared hash/history; every result and every reported PV validated by replay; termination under a watchdog; caller's position unchanged.","exploration of searches with replay validation"),
+ ("C07","exploration","Runtime monitor through a verif hook at the two classification sites of alphabeta.go: every node scored as mate/stalemate is checked to have no legal move, under default and random pruning configurations; terminal roots.","hooked exploration of terminal classifications"),
+ ("C10","exploration","Runtime monitor: repetition query and half-move clock against an independent count over shuffling games; insufficient-material classification over all 7056 material signatures with up to 3 pieces per side.","exploration + exhaustive material signatures"),
+ ("C12","exploration","Protocol-valid UCI sessions against the real handler through pipes with all properties of C12 checked per go command, incl. timing-sensitive scenarios (isready while searching, go right after bestmove).","exploration of UCI sessions"),
+ ("C13","exploration","Time-budget inequalities of the property checked on a large grid through the verif hook; real movetime/depth/nodes/searchmoves searches measured.","grid exploration of the time budget + measured searches"),
+ ("C14","exploration","Lifecycle call storms under a watchdog with result accounting, plus the same storms under the Go race detector; every race report is a violation.","exploration of lifecycle schedules + race detector"),
+ ("C15","exploration","Runtime monitor: purity (repeat, second evaluator, interleaved positions, do/undo excursions), colour mirror, dead material = 0, under the 4 UCI evaluation option combinations.","exploration with mirror/purity oracles"),
+ ("C16","exploration","Structural families + byte-level mutations of FEN strings and UCI command lines through the real parser/handler under recover() and a watchdog; accepted FENs must reparse to themselves; isready and a valid position after every line.","fuzzing-style exploration with structural families"),
+ ("C17","exploration","Exhaustive 65,536 move codes x boundary/sampled values through the real encoding functions; UCI/SAN round trips against a reference SAN printer for every legal move of generated positions; ambiguous and illegal strings.","exhaustive encoding sweep + notation round trips"),
+ ("C19","exploration","Real books built from generated game collections in three formats under GOMAXPROCS 1/2/16 compared with expected positions and counts; offered moves validated.","exploration of formats x schedules"),
+ ("C20","fault_enumeration","Every prefix of a real cache file (crash points of the non-atomic save) plus corrupted variants; Initialize twice per state under a watchdog; result compared with the source-built book.","fault enumeration over cache file states"),
+]:
+    CHECKS[_pid] = dict(cat=_cat, text=_txt, note=MON_NOTE, technique=_tech, ref="6 "+_pid)
+
 m = dict(version=1,
          setup_cmd="bin/verif setup",
          hooks=dict(guard="verif", enable="go build -tags verif (the harness module /verif/harness replaces github.com/frankkopp/FrankyGo => /repo)",
